@@ -347,7 +347,12 @@ def random_group(rng, nsplits):
 def main():
     ck = Check('C04')
     ck.regen()
-    ck.lean(['LbzVerif.Props.C04'])
+    # with a private driver (LBZDRV set, development) do not insist on building
+    # the shared lbzdrv, which contains every work package's commands
+    if os.environ.get('LBZDRV'):
+        ck.lean(['LbzVerif.Props.C04'], extra_targets=())
+    else:
+        ck.lean(['LbzVerif.Props.C04'])
     ck.require_theorems(['LbzVerif.Props.C04.' + n for n in (
         'unrle_rle', 'rle1_run', 'rle1_maxrun', 'rleLen_snoc',
         'rleLen_take_mono', 'pack_maximal', 'pack_largest', 'collect_split',
